@@ -26,25 +26,25 @@ def families(tier, seed):
             cfgs.append(("param3", graphgen.graph_cfg(0, set(), n_params=3, param_edges=es)))
     # the same structures with the references written in descending order and with text between them
     for k, es in enumerate(graphgen.all_digraphs(3)):
-        if (k + 1) % step == 0:
+        if (k + off + 1) % step == 0:
             cfgs.append(("param3-desc", graphgen.graph_cfg(0, set(), n_params=3, param_edges=es, order="desc", param_sep="://")))
             cfgs.append(("svc3-desc", graphgen.graph_cfg(3, es, order="desc")))
     # the same structures with references written more than once (first twice, each twice, first again at the end): a repeated
     # reference is one dependency
     for k, es in enumerate(graphgen.all_digraphs(3)):
-        if (k + off) % (step * 2) == 0:
+        if (k + off + 3) % (step * 2) == 0:
             for rp_ in ("first", "each", "sandwich"):
                 cfgs.append(("param3-repeat", graphgen.graph_cfg(0, set(), n_params=3, param_edges=es, repeat=rp_, param_sep=", " if rp_ == "first" else "")))
                 cfgs.append(("svc3-repeat", graphgen.graph_cfg(3, es, repeat=rp_, order="desc" if rp_ == "each" else "asc")))
     # the same edges written in calls (after a call without arguments), fields and withers instead of constructor arguments
     for k, es in enumerate(graphgen.all_digraphs(3)):
-        if (k + 1) % (step * 2) == 0:
+        if (k + off + 2) % (step * 2) == 0:
             for st_ in ("calls", "fields", "wither"):
                 cfgs.append(("svc3-" + st_, graphgen.graph_cfg(3, es, edge_style=st_)))
     # references to undeclared services before / after the edge that closes a cycle (decided with --ignore-missing-services too)
     rg = random.Random("%s/c07ghost" % seed)
     for k, es in enumerate(graphgen.all_digraphs(3)):
-        if (k + 2) % (step * 2) == 0:
+        if (k + off + 5) % (step * 2) == 0:
             gh = {i: rg.choice(["first", "last"]) for i in range(3) if rg.random() < 0.6}
             cfgs.append(("svc3-ghost", graphgen.graph_cfg(3, es, ghosts=gh, order=rg.choice(["asc", "desc"]))))
     # !tagged requested from calls, fields, withers and decorator arguments; duplicate references; todo services on the way
@@ -225,7 +225,7 @@ def run(tier, seed, replay):
                 samples.append({"family": fam, "config": cfggen.to_yaml(cfg), "diagnostics": cerrs})
     # ---- run-time half: an accepted container reports no circular dependencies and every parameter evaluation terminates
     from . import rtcommon
-    rs, hs, gs = rtcommon.gen_cases(seed, "c07rt", 16 if tier == "quick" else 300, weights={"todo": 0.1, "decorators": 0.6, "tagged": 0.6}, hist_len=0)
+    rs, hs, gs = rtcommon.gen_cases(seed, "c07rt", 16 if tier == "quick" else 300, weights={"todo": 0.1, "decorators": 0.9, "tags": 0.9, "min_tags": 1}, hist_len=0)
     for k, sp in enumerate(rs):
         hs[k] = [{"op": "circular", "name": ""}] + [{"op": "param", "name": p_} for p_ in sp["cfg"]["parameters"]] + [{"op": "get", "name": n_} for n_ in sp["cfg"]["services"]] + [{"op": "circular", "name": ""}]
     robs, rl, ml, racc = rtcommon.run_histories(out, tooldir, env, rs, hs, "C07 run-time half", "C07")
